@@ -1,5 +1,6 @@
 import JoblibProofs.Lemmas.FuncCode
 import JoblibProofs.Lemmas.FuncCodeText
+import JoblibProofs.Lemmas.FuncCodeFault
 /-!
 # C12 — a cached function never returns a value computed by different source code
 
@@ -399,6 +400,96 @@ theorem truncated_func_code_witness :
       [.done, .value (1, 0) true, .value (1, 1) true, .done, .done, .done, .value (2, 0) true,
        .value (2, 1) true] := by
   decide
+
+/-! ## Transient faults on the WRITE of `func_code.py` (`JoblibModel.FuncCodeFault`)
+
+`open(func_code.py, "wb")` or the `write` after it raises (`EMFILE`, `ENOSPC`, `EACCES`, …) during any call,
+`check_call_in_cache` or `MemorizedFunc.clear`, any number of times in a history, while every other write
+succeeds.  The code as it is lets the `OSError` reach the caller BEFORE the function is executed and before
+anything is stored.  F39 (`deleted_func_code_counterexample`) is about a `func_code.py` somebody DELETED; the
+theorems here say that the code itself never makes that state, faults on its own writes included. -/
+
+/-- **Every value that is returned is the own version's, write faults included.**  In every history — with
+any operation run while the write of `func_code.py` fails on `open` or on `write` — that never deletes a
+`func_code.py` and addresses every directory under one spelling: only a faulted operation raises, and every
+call that returns, returns the value its function's current code computes. -/
+theorem value_from_own_version_with_write_faults (sem : Src → Nat → R) (ops : List FOp)
+    (hnd : ∀ op ∈ ops, NoDelete op.op) (hcan : ∀ op ∈ ops, Canonical op.op) :
+    AllCorrectF Cfg.fixed false sem (init : State R) ops :=
+  allCorrectF_of_inv good_fixed ops _ (inv_init _ sem) hnd fun op h => keyOK_of_canonical (hcan op h)
+
+/-- **Entries exist in a function directory only beside the code that computed them.**  After every such
+history, in every cache directory: no `func_code.py` ⇒ no entry; and when `func_code.py` holds a source text,
+every entry beside it is the value THAT source computes.  (A failing write of `func_code.py` leaves the
+directory without entries: it was missing-and-empty, or `clear_path` had just emptied it, and the exception
+leaves `_cached_call` before the function runs.) -/
+theorem entries_only_beside_their_code (sem : Src → Nat → R) (ops : List FOp)
+    (hnd : ∀ op ∈ ops, NoDelete op.op) (hcan : ∀ op ∈ ops, Canonical op.op) (d : Loc) :
+    let st := execF Cfg.fixed false sem (init : State R) ops
+    ((dirAt st d).code = .missing → (dirAt st d).entries = []) ∧
+      ∀ s, (dirAt st d).code = .ok s → ∀ a r, dget a (dirAt st d).entries = some r → r = sem s a := by
+  intro st
+  have hi : Inv Cfg.fixed sem st :=
+    inv_execF good_fixed ops _ (inv_init _ sem) hnd fun op h => keyOK_of_canonical (hcan op h)
+  exact ⟨fun h => ((hi.dirs d).missing h).1, (hi.dirs d).stored⟩
+
+/-- A faulted operation either raises or is the plain operation (the fault did not fire: no `func_code.py`
+was to be written) — for every version of the in-memory tables (`cfg` arbitrary). -/
+theorem write_fault_raises_or_is_plain (cfg : Cfg) (sem : Src → Nat → R) (st : State R) (f : WriteFault) (op : Op) :
+    (stepF cfg false sem st (.faulty f op)).1 = .raised ∨
+      stepF cfg false sem st (.faulty f op) = (.out (step cfg sem st op).1, (step cfg sem st op).2) :=
+  stepF_raised_or_plain cfg sem st f op
+
+/-- The history of the regression: version 1's first call meets `EMFILE` on `open(func_code.py)`; the call is
+repeated, arguments 1 and 2 are cached; the function is edited; the next session calls all three. -/
+def histWriteFault : List FOp :=
+  [.plain (.define 1 1 true 0), .faulty .onOpen (.call 1 0), .plain (.call 1 0), .plain (.call 1 1),
+   .plain (.call 1 2), .plain .fresh, .plain (.define 2 2 true 0), .plain (.call 2 0), .plain (.call 2 1),
+   .plain (.call 2 2)]
+
+/-- A seeded regression: `store_cached_func_code` swallows the failing write.  The faulted call goes on,
+registers the function in the in-memory tables and stores its result — in a directory WITHOUT `func_code.py`;
+so do the following calls (the shortcut answers).  After the edit the next session takes the "no
+func_code.py" branch for its first call (writes the new source, recomputes that argument only) and serves
+version 1's values for the other arguments. -/
+theorem swallowed_write_error_counterexample :
+    runF Cfg.fixed true semEx init histWriteFault =
+      [.out .done, .out (.value (1, 0) true), .out (.value (1, 0) false), .out (.value (1, 1) true),
+       .out (.value (1, 2) true), .out .done, .out .done, .out (.value (2, 0) true),
+       .out (.value (1, 1) false), .out (.value (1, 2) false)] := by
+  decide
+
+/-- … the state it creates by itself: entries without `func_code.py`. -/
+theorem swallowed_write_error_entries_without_code :
+    let st := execF Cfg.fixed true semEx (init : State (Nat × Nat)) (histWriteFault.take 5)
+    (dirAt st 0).code = .missing ∧ (dirAt st 0).entries.length = 3 := by
+  decide
+
+theorem swallowed_write_error_value_from_own_version_false :
+    ¬ ∀ ops : List FOp, (∀ op ∈ ops, NoDelete op.op) → (∀ op ∈ ops, Canonical op.op) →
+        AllCorrectF Cfg.fixed true semEx (init : State (Nat × Nat)) ops := by
+  intro h
+  exact absurd (h histWriteFault (by decide) (by decide)) (by decide)
+
+/-- The code as it is on the same history (the faulted call raises, its repetition writes the code first),
+and with the fault on `write` (an empty file is left: the repetition clears and rewrites), and with the fault
+met by the EDITED function's first call (after `clear_path`) and by `MemorizedFunc.clear`. -/
+theorem fixed_on_the_write_fault_witnesses :
+    runF Cfg.fixed false semEx init histWriteFault =
+      [.out .done, .raised, .out (.value (1, 0) true), .out (.value (1, 1) true),
+       .out (.value (1, 2) true), .out .done, .out .done, .out (.value (2, 0) true),
+       .out (.value (2, 1) true), .out (.value (2, 2) true)] ∧
+    runF Cfg.fixed false semEx init
+        [.plain (.define 1 1 true 0), .faulty .onWrite (.call 1 0), .plain (.call 1 0), .plain (.call 1 1),
+         .plain .fresh, .plain (.define 2 2 true 0), .faulty .onOpen (.call 2 1), .plain (.call 2 1),
+         .plain (.call 2 0), .faulty .onWrite (.clearFn 2), .plain (.call 2 0), .faulty .onOpen (.call 2 0)] =
+      [.out .done, .raised, .out (.value (1, 0) true), .out (.value (1, 1) true), .out .done, .out .done,
+       .raised, .out (.value (2, 1) true), .out (.value (2, 0) true), .raised, .out (.value (2, 0) true),
+       .out (.value (2, 0) false)] := by
+  decide
+
+example : ∀ op ∈ histWriteFault, NoDelete op.op := by decide
+example : ∀ op ∈ histWriteFault, Canonical op.op := by decide
 
 /-! ## F10 — the tree before fixes/F10-same-name-redefinition.diff -/
 
